@@ -2,7 +2,9 @@ package props
 
 import (
 	"encoding/json"
+	"errors"
 	"fmt"
+	"github.com/freeconf/yang/fc"
 	"strings"
 
 	"github.com/freeconf/yang/meta"
@@ -25,6 +27,9 @@ func init() {
 type c09Op struct {
 	Tag string `json:"tag"` // choice shape / member kind, used in signatures
 	Doc string `json:"doc"`
+	// Strat: "" = upsert; "insert" / "update": only the invariant and the read are checked, and the
+	// strategy may refuse the edit (conflict / not-found)
+	Strat string `json:"strategy,omitempty"`
 }
 
 func init() {
@@ -59,62 +64,73 @@ func init() {
 }
 
 var c09AugAlphabet = []c09Op{
-	{"plain-case/leaf", `{"a1":"a"}`},
-	{"augmented-into-case/container", `{"ac":{"x":"a"}}`},
-	{"uses-in-case/leaf", `{"g1":"a"}`},
-	{"uses-in-case/container", `{"gc":{"x":"a"}}`},
-	{"uses-in-case/list", `{"gl":[{"k":"a"}]}`},
-	{"uses-in-case/all", `{"g1":"b","gc":{"x":"b"},"gl":[{"k":"b"}]}`},
-	{"nested-choice/container", `{"nd":{"x":"a"}}`},
-	{"nested-choice/list", `{"nl":[{"k":"a"}]}`},
-	{"nested-choice/leaf", `{"n2l":"a"}`},
-	{"augmented-case/leaf", `{"au1":"a"}`},
-	{"augmented-case/container", `{"auc":{"x":"a"}}`},
-	{"augmented-shorthand/leaf", `{"sh":"a"}`},
-	{"augmented-uses/leaf", `{"h1":"a"}`},
-	{"augmented-uses/container", `{"hc":{"x":"a"}}`},
-	{"outside", `{"o":"a"}`},
-	{"in-container/plain-case", `{"w":{"p1":"a"}}`},
-	{"in-container/augmented-case/leaf", `{"w":{"q1":"a"}}`},
-	{"in-container/augmented-case/list", `{"w":{"ql":[{"k":"a"}]}}`},
-	{"outside", `{"w":{"keep":"a"}}`},
+	{"plain-case/leaf", `{"a1":"a"}`, ""},
+	{"augmented-into-case/container", `{"ac":{"x":"a"}}`, ""},
+	{"uses-in-case/leaf", `{"g1":"a"}`, ""},
+	{"uses-in-case/container", `{"gc":{"x":"a"}}`, ""},
+	{"uses-in-case/list", `{"gl":[{"k":"a"}]}`, ""},
+	{"uses-in-case/all", `{"g1":"b","gc":{"x":"b"},"gl":[{"k":"b"}]}`, ""},
+	{"nested-choice/container", `{"nd":{"x":"a"}}`, ""},
+	{"nested-choice/list", `{"nl":[{"k":"a"}]}`, ""},
+	{"nested-choice/leaf", `{"n2l":"a"}`, ""},
+	{"augmented-case/leaf", `{"au1":"a"}`, ""},
+	{"augmented-case/container", `{"auc":{"x":"a"}}`, ""},
+	{"augmented-shorthand/leaf", `{"sh":"a"}`, ""},
+	{"augmented-uses/leaf", `{"h1":"a"}`, ""},
+	{"augmented-uses/container", `{"hc":{"x":"a"}}`, ""},
+	{"outside", `{"o":"a"}`, ""},
+	{"in-container/plain-case", `{"w":{"p1":"a"}}`, ""},
+	{"in-container/augmented-case/leaf", `{"w":{"q1":"a"}}`, ""},
+	{"in-container/augmented-case/list", `{"w":{"ql":[{"k":"a"}]}}`, ""},
+	{"outside", `{"w":{"keep":"a"}}`, ""},
 }
 
 var c09Alphabets = map[string][]c09Op{"": c09Alphabet, "choicewhen": c09WhenAlphabet, "choiceaug": c09AugAlphabet}
 
 var c09WhenAlphabet = []c09Op{
-	{"when-case/switch-with-guard", `{"kind":"a","a1":"x"}`},
-	{"when-case/switch-with-guard", `{"kind":"b","b1":"y"}`},
-	{"when-case/switch-with-guard", `{"kind":"b","b2":{"x":"z"}}`},
-	{"when-case/guard-only", `{"kind":"a"}`},
-	{"when-case/guard-only", `{"kind":"b"}`},
+	{"when-case/switch-with-guard", `{"kind":"a","a1":"x"}`, ""},
+	{"when-case/switch-with-guard", `{"kind":"b","b1":"y"}`, ""},
+	{"when-case/switch-with-guard", `{"kind":"b","b2":{"x":"z"}}`, ""},
+	{"when-case/guard-only", `{"kind":"a"}`, ""},
+	{"when-case/guard-only", `{"kind":"b"}`, ""},
 }
 
 var c09Alphabet = []c09Op{
-	{"flat/leaf", `{"a1":"a"}`},
-	{"flat/leaf", `{"a2":1}`},
-	{"flat/leaves", `{"a1":"b","a2":2}`},
-	{"flat/zero-valued-leaf", `{"a2":0}`},
-	{"flat/empty-string-leaf", `{"a1":""}`},
-	{"flat/container", `{"b1":{"x":"a"}}`},
-	{"flat/list", `{"c1":[{"k":"a","v":"a"}]}`},
-	{"flat/list", `{"c1":[{"k":"b"}]}`},
-	{"flat/leaf-after-container", `{"b2":"a"}`},
-	{"flat/container-and-leaf", `{"b1":{"x":"b"},"b2":"b"}`},
-	{"flat/shorthand", `{"s":"a"}`},
-	{"outside", `{"o":"a"}`},
-	{"nested/outer-case", `{"w":{"p1":"a"}}`},
-	{"nested/inner-case", `{"w":{"i1":"a"}}`},
-	{"nested/inner-case", `{"w":{"j1":"a"}}`},
-	{"nested/inner-case", `{"w":{"j2":"b"}}`},
-	{"nested/inner-case", `{"w":{"j1":"b","j2":"a"}}`},
-	{"nested/leaf-after-inner-choice", `{"w":{"q2":"a"}}`},
-	{"nested/choice-after-leaf", `{"w":{"r1":"a","r2":"b"}}`},
-	{"nested/choice-after-leaf", `{"w":{"r3":"c"}}`},
-	{"outside", `{"w":{"keep":"a"}}`},
-	{"in-list", `{"e":[{"k":"a","x1":"a"}]}`},
-	{"in-list", `{"e":[{"k":"a","y1":"a"}]}`},
-	{"in-list", `{"e":[{"k":"b","y1":"b"}]}`},
+	{"flat/leaf", `{"a1":"a"}`, ""},
+	{"flat/leaf", `{"a2":1}`, ""},
+	{"flat/leaves", `{"a1":"b","a2":2}`, ""},
+	{"flat/zero-valued-leaf", `{"a2":0}`, ""},
+	{"flat/empty-string-leaf", `{"a1":""}`, ""},
+	{"flat/container", `{"b1":{"x":"a"}}`, ""},
+	{"flat/list", `{"c1":[{"k":"a","v":"a"}]}`, ""},
+	{"flat/list", `{"c1":[{"k":"b"}]}`, ""},
+	{"flat/leaf-after-container", `{"b2":"a"}`, ""},
+	{"flat/container-and-leaf", `{"b1":{"x":"b"},"b2":"b"}`, ""},
+	{"flat/shorthand", `{"s":"a"}`, ""},
+	{"outside", `{"o":"a"}`, ""},
+	{"nested/outer-case", `{"w":{"p1":"a"}}`, ""},
+	{"nested/inner-case", `{"w":{"i1":"a"}}`, ""},
+	{"nested/inner-case", `{"w":{"j1":"a"}}`, ""},
+	{"nested/inner-case", `{"w":{"j2":"b"}}`, ""},
+	{"nested/inner-case", `{"w":{"j1":"b","j2":"a"}}`, ""},
+	{"nested/leaf-after-inner-choice", `{"w":{"q2":"a"}}`, ""},
+	{"nested/choice-after-leaf", `{"w":{"r1":"a","r2":"b"}}`, ""},
+	{"nested/choice-after-leaf", `{"w":{"r3":"c"}}`, ""},
+	{"outside", `{"w":{"keep":"a"}}`, ""},
+	{"in-list", `{"e":[{"k":"a","x1":"a"}]}`, ""},
+	{"in-list", `{"e":[{"k":"a","y1":"a"}]}`, ""},
+	{"in-list", `{"e":[{"k":"b","y1":"b"}]}`, ""},
+	{Tag: "insert/leaf", Doc: `{"a1":"i"}`, Strat: "insert"},
+	{Tag: "insert/leaf", Doc: `{"b2":"i"}`, Strat: "insert"},
+	{Tag: "insert/shorthand", Doc: `{"s":"i"}`, Strat: "insert"},
+	{Tag: "insert/container", Doc: `{"b1":{"x":"i"}}`, Strat: "insert"},
+	{Tag: "update/leaf", Doc: `{"a2":7}`, Strat: "update"},
+	{Tag: "update/shorthand", Doc: `{"s":"u"}`, Strat: "update"},
+	{Tag: "insert/nested", Doc: `{"w":{"j1":"i"}}`, Strat: "insert"},
+	{"in-list/two-items-same-case", `{"e":[{"k":"a","x1":"c"},{"k":"b","x1":"c"}]}`, ""},
+	{"in-list/two-items-same-case", `{"e":[{"k":"a","y1":"d"},{"k":"b","y1":"d"}]}`, ""},
+	{"in-list/two-items-other-cases", `{"e":[{"k":"a","x1":"e"},{"k":"b","y1":"e"}]}`, ""},
+	{"in-list/three-items-same-case", `{"e":[{"k":"a","y1":"f"},{"k":"b","y1":"f"},{"k":"c","y1":"f"}]}`, ""},
 }
 
 type c09Case struct {
@@ -200,7 +216,7 @@ func c09Step(c c09Case, inst *c09Inst, op c09Op) []eng.StepViol {
 	if err != nil {
 		panic(err)
 	}
-	desc := fmt.Sprintf("upsert %s on %s", op.Doc, before)
+	desc := fmt.Sprintf("%s %s on %s", map[string]string{"": "upsert", "insert": "insert", "update": "update"}[op.Strat], op.Doc, before)
 	var uerr error
 	fr, msg, pan := eng.Recover(func() {
 		var src node.Node
@@ -215,12 +231,19 @@ func c09Step(c c09Case, inst *c09Inst, op c09Op) []eng.StepViol {
 		} else {
 			src = store.ContainerNode(s.Clone())
 		}
-		uerr = env.b.Root().UpsertFrom(src)
+		switch op.Strat {
+		case "insert":
+			uerr = env.b.Root().InsertFrom(src)
+		case "update":
+			uerr = env.b.Root().UpdateFrom(src)
+		default:
+			uerr = env.b.Root().UpsertFrom(src)
+		}
 	})
 	if pan {
 		return []eng.StepViol{{Sig: site + "/panic:" + fr, What: desc + ": " + msg}}
 	}
-	if uerr != nil {
+	if uerr != nil && (op.Strat == "" || (!errors.Is(uerr, fc.ConflictError) && !errors.Is(uerr, fc.NotFoundError))) {
 		return []eng.StepViol{{Sig: site + "/error-on-valid", What: fmt.Sprintf("%s: %v", desc, uerr)}}
 	}
 	got := env.snap()
@@ -228,10 +251,12 @@ func c09Step(c c09Case, inst *c09Inst, op c09Op) []eng.StepViol {
 	if msg := exclusive(m.DataDefinitions(), got, ""); msg != "" {
 		return []eng.StepViol{{Sig: site + "/two-cases-hold-data", What: fmt.Sprintf("%s: %s; store now %s", desc, msg, got)}}
 	}
-	want := before.Clone()
-	modelEdit(m, entryPoint{}, model.Upsert, s, want, env.st.MapLists())
-	if kd, w := model.Diff(m.DataDefinitions(), want, got, env.canonOpts(), ""); kd != "" {
-		return []eng.StepViol{{Sig: site + "/wrong-result/" + kd, What: fmt.Sprintf("%s: %s; want %s got %s", desc, w, want, got)}}
+	if op.Strat == "" {
+		want := before.Clone()
+		modelEdit(m, entryPoint{}, model.Upsert, s, want, env.st.MapLists())
+		if kd, w := model.Diff(m.DataDefinitions(), want, got, env.canonOpts(), ""); kd != "" {
+			return []eng.StepViol{{Sig: site + "/wrong-result/" + kd, What: fmt.Sprintf("%s: %s; want %s got %s", desc, w, want, got)}}
+		}
 	}
 	if c.Schema == "choicewhen" {
 		// a case whose when is false is stored but not shown: the read clause does not apply
